@@ -226,22 +226,10 @@ class BufferStore(Store):
             # 4) Drop the event token
             self.reserved_events.pop(ev_idx)
 
-            # 5) Remove it from ready_items wherever it currently is
-            try:
-                self.ready_items.remove(item)
-            except ValueError:
+            # 5) The reservation never removed the item from ready_items: releasing it
+            #    only unbinds it, so it keeps its place in the service order
+            if not any(it is item for it in self.ready_items):
                 raise RuntimeError(f"Item {item} not found in ready_items during cancel.")
-
-            # 6) Compute new insertion index as a get call is cancelled and item that is reserved and associated to an event is now freely available to be assigned to a new incoming event
-            if self.mode == "FIFO":
-                # one slot before the remaining reserved block
-                insert_idx = len(self.ready_items) - len(self.reserved_events) - 1
-            else:  # LIFO
-                # top of stack
-                insert_idx = len(self.ready_items)
-
-            # 7) Re‑insert it
-            self.ready_items.insert(insert_idx, item)
 
             # 8) Trigger any other pending reservations
             self._trigger_reserve_get(None)
@@ -339,11 +327,14 @@ class BufferStore(Store):
             We pick the j-th from top (for LIFO) or bottom (for FIFO)
             but do NOT remove it yet—we just record the exact item.
             """
-            j = len(self.reserved_events)
+            # the ready items that no other granted reservation holds, in arrival order
+            unreserved = [it for it in self.ready_items
+                          if not any(it is r for r in self.reserved_items)]
             if self.mode == "FIFO":
-                item = self.ready_items[j]
+                item = unreserved[0]
             else:  # LIFO
-                item = self.ready_items[-1 - j]
+                item = unreserved[-1]
+
 
             # record the reservation
             self.reserved_events.append(event)
